@@ -138,6 +138,10 @@ def core_histories():
     H["core-then-merge"] = [("add", 0, ["x==K0"]), ("branch", 0, 1), ("add", 0, ["x==K1"]), ("unsat_core", 0), ("add", 1, ["y<=K2"]), ("merge", 0, [1], ["b", "!b"], 2), ("unsat_core", 2), ("sat", 2, [])]
     H["core-then-combine"] = [("add", 0, ["x==K0"]), ("add", 0, ["x==K1"]), ("unsat_core", 0), ("branch", 0, 1), ("combine", 0, [1], 2), ("unsat_core", 2)]
     H["core-branch-after-unsat"] = [("add", 0, [A]), ("add", 0, ["x>K2"]), ("sat", 0, []), ("branch", 0, 1), ("add", 1, ["y<=K2"]), ("unsat_core", 1), ("unsat_core", 0)]
+    # the core of a solver whose unsatisfiability is only known from a cache (a branch of an unsatisfiable solver, a concrete False)
+    H["core-branch-after-unsat-3way"] = [("add", 0, [A]), ("add", 0, ["x>=K1"]), ("add", 0, ["x!=K2"]), ("sat", 0, []), ("branch", 0, 1), ("add", 1, ["y<=K2"]), ("unsat_core", 1), ("unsat_core", 0)]
+    H["core-branch-after-unsat-queries"] = [("add", 0, [A, "x>=K1"]), ("add", 0, ["x!=K2"]), ("eval", 0, "x", 2, []), ("branch", 0, 1), ("branch", 1, 2), ("add", 2, ["y==K1"]), ("unsat_core", 2), ("unsat_core", 1)]
+    H["false-added-later-core"] = [("add", 0, ["x==y"]), ("sat", 0, []), ("add", 0, ["false"]), ("unsat_core", 0), ("sat", 0, [])]
     H["branch-core"] = [("add", 0, [A]), ("branch", 0, 1), ("add", 1, ["x>K2"]), ("unsat_core", 1), ("unsat_core", 0)]
     return H
 
@@ -162,6 +166,9 @@ def pickle_histories():
     for n, h in base.items():
         for k, v in insert_everywhere(h, ("pickle", 0), n).items():
             H[k] = v
+    # a solver and its branch in one pickle: what they shared must stay copy-on-write
+    H["pickle-pair-then-diverge"] = [("add", 0, [A]), ("branch", 0, 1), ("pickle2", 0, 1), ("add", 0, ["x!=K2"]), ("eval", 1, "x", 9, []), ("eval", 0, "x", 9, []), ("add", 1, [U]), ("eval", 0, "x", 9, [])]
+    H["pickle-pair-two-groups"] = [("add", 0, [A, "y<=K2"]), ("eval", 0, "x", 2, []), ("branch", 0, 1), ("pickle2", 0, 1), ("add", 1, ["y!=K1"]), ("eval", 0, "y", 9, []), ("add", 0, ["x==y"]), ("eval", 1, "x", 9, [])]
     H["branch-then-pickle-child@c"] = [("add", 0, [A]), ("branch", 0, 1), ("add", 1, ["x!=K2"]), ("pickle", 1), ("eval", 1, "x", 9, []), ("add", 1, [U]), ("eval", 1, "x", 9, []), ("eval", 0, "x", 9, [])]
     return H
 
